@@ -1105,5 +1105,7 @@ class Interp:
             if d.kind == "classattr":
                 # callable attribute (e.g. a dataclass field holding a coroutine function)
                 return [Target("attr-callable", fullname=full)]
+            if d.kind == "external":
+                return [Target("external", fullname=d.obj, argtypes=argtypes)]
             return [Target("unknown", note=f"{full} is a {d.kind}")]
         return [Target("external", fullname=full, argtypes=argtypes)]
